@@ -58,6 +58,15 @@ def _known(prop: str) -> list[dict]:
     return [e for e in data.get("findings", []) if e.get("property") == prop]
 
 
+def _shard_hashseed(seed: int, i: int) -> int:
+    """even shards run with string hashing fixed at 0, odd shards under a seed derived from VERIF_SEED
+    and the shard number: iteration orders of str sets / enum sets differ between shards, and every
+    shard is still a pure function of (tree, VERIF_SEED)."""
+    if i % 2 == 0:
+        return 0
+    return (seed * 7919 + i * 104729) % 4294967294 + 1
+
+
 def _write_replay(prop: str, failure: dict) -> str:
     from pbt.runtime import case_hash
 
@@ -90,6 +99,10 @@ def main() -> int:
         if args.replay:
             with open(args.replay) as f:
                 case = json.load(f)
+            want = str(case.get("hashseed", 0))
+            if os.environ.get("PYTHONHASHSEED") != want:
+                env = dict(os.environ, PYTHONHASHSEED=want, VERIF_KEEP_HASHSEED="1")
+                os.execve(PY, [PY, os.path.abspath(__file__), *sys.argv[1:]], env)
             held, msg = rt.replay_case(module, case)
             if held:
                 print(f"replay {args.replay}: property held")
@@ -114,7 +127,9 @@ def main() -> int:
 
 def _reproduces(prop: str, path: str) -> bool:
     """replay in a fresh interpreter; True iff it reports the violation again."""
-    env = dict(os.environ, PYTHONHASHSEED="0")
+    with open(path) as f:
+        want = str(json.load(f).get("hashseed", 0))
+    env = dict(os.environ, PYTHONHASHSEED=want, VERIF_KEEP_HASHSEED="1")
     r = subprocess.run([PY, os.path.abspath(__file__), prop, "--replay", path], env=env, cwd=VERIF_DIR,
                        capture_output=True, text=True)
     return r.returncode == 1
@@ -138,7 +153,8 @@ def _confirm_failure(prop: str, failure: dict, first_failure: dict | None, histo
         while True:
             seq = cases[-k:]
             cand = {"prop": prop, "part": history["part"], "sequence": seq, "warm": history.get("warm", "none"),
-                    "clause": first_failure["clause"], "detail": first_failure["detail"]}
+                    "clause": first_failure["clause"], "detail": first_failure["detail"],
+                    "hashseed": first_failure.get("hashseed", 0)}
             path = _write_replay(prop, cand)
             if _reproduces(prop, path):
                 print(f"failing case ({history['part']}, needs the preceding {len(seq) - 1} case(s) in the "
@@ -180,21 +196,22 @@ def _parent(module, prop: str, tier: str, seed: int, shards: int | None) -> int:
     work = os.path.join(VERIF_DIR, ".work", f"{prop}-{os.getpid()}")
     os.makedirs(work, exist_ok=True)
     procs = []
-    env = dict(os.environ, PYTHONHASHSEED="0", VERIF_SEED=str(seed))
     for i in range(n):
+        hs = _shard_hashseed(seed, i)
+        env = dict(os.environ, PYTHONHASHSEED=str(hs), VERIF_KEEP_HASHSEED="1", VERIF_SEED=str(seed))
         out = os.path.join(work, f"shard{i}.json")
         log = open(os.path.join(work, f"shard{i}.log"), "w")
         p = subprocess.Popen(
             [PY, os.path.abspath(__file__), prop, "--tier", tier, "--shard", f"{i}/{n}", "--out", out],
             env=env, stdout=log, stderr=subprocess.STDOUT, cwd=VERIF_DIR,
         )
-        procs.append((p, out, log))
+        procs.append((p, out, log, hs))
     stats = rt.Stats()
     failure = None
     first_failure = None
     history = None
     harness_errors = []
-    for p, out, log in procs:
+    for p, out, log, hs in procs:
         rc = p.wait()
         log.close()
         if rc != 0 or not os.path.exists(out):
@@ -208,6 +225,9 @@ def _parent(module, prop: str, tier: str, seed: int, shards: int | None) -> int:
             failure = res["failure"]
             first_failure = res.get("first_failure")
             history = res.get("history")
+            for d in (failure, first_failure):
+                if d is not None:
+                    d["hashseed"] = hs
     shutil.rmtree(work, ignore_errors=True)
     try:
         os.rmdir(os.path.join(VERIF_DIR, ".work"))
@@ -228,6 +248,9 @@ def _parent(module, prop: str, tier: str, seed: int, shards: int | None) -> int:
             return 2
         violations.append(path)
 
+    n_to = sum(v for k, v in stats.labels.items() if k.endswith(":CASE-TIMEOUT"))
+    if n_to:
+        print(f"note: {n_to} case(s) exceeded the per-case time limit and were dropped as inconclusive", file=sys.stderr)
     wall = time.monotonic() - t0
     _write_evidence(module, prop, tier, seed, stats, wall, len(violations), n, regression_cases, known_lines)
     for line in known_lines:
@@ -273,7 +296,9 @@ def _write_evidence(module, prop, tier, seed, stats, wall, nviol, nshards, regre
             "floors": floors,
             "floors_met": floors_met,
             "excluded_by_known_finding": dict(stats.excluded),
+            "case_timeouts_inconclusive": sum(v for k, v in stats.labels.items() if k.endswith(":CASE-TIMEOUT")),
             "shards": nshards,
+            "shard_string_hash_seeds": [_shard_hashseed(seed, i) for i in range(nshards)],
             "regression_cases_replayed": regression_cases,
             "known_findings_reported": known_lines,
         },
